@@ -540,7 +540,7 @@ func (w *asWorld) buildNode() {
 			asGER{}, nil, w.signer, asOptimistic{w: w}, asOptimistic{w: w})
 	}
 	cfg := aggsendercfg.Config{
-		MaxRetriesStoreCertificate: 3,
+		MaxRetriesStoreCertificate: map[bool]int{true: 3, false: 0}[w.hist], // 0 = retry the local write for ever (worlds without the history table)
 		DelayBetweenRetries:        cfgtypes.NewDuration(0),
 		RetryCertAfterInError:      w.retry,
 		KeepCertificatesHistory:    w.hist,
